@@ -211,10 +211,13 @@ def check_case_agreement(prog, res, modules, rule='V3c'):
   import ast as _ast
   from ..model import dotted, norm_text
   n = 0
+  # families are collected over all the modules first: the validator of a
+  # layer's hyper-parameter lives in the *_lib module, raw comparisons may
+  # sit in the layer module
+  fam = {}
   for mname in modules:
     mod = prog.module(mname)
     fns = [f for f in mod.all_functions() if f.parent is None]
-    fam = {}
     for f in fns:
       for c in _ast.walk(f.node):
         if isinstance(c, _ast.Compare) and len(c.ops) == 1 and isinstance(
@@ -226,6 +229,9 @@ def check_case_agreement(prog, res, modules, rule='V3c'):
               v = dotted(a.func.value)
               if v:
                 fam.setdefault((v.split('.')[-1], b.value), f.qualname)
+  for mname in modules:
+    mod = prog.module(mname)
+    fns = [f for f in mod.all_functions() if f.parent is None]
     for f in fns:
       idx = {}
       for c in _ast.walk(f.node):
@@ -247,9 +253,9 @@ def check_case_agreement(prog, res, modules, rule='V3c'):
                   'accepts it case-insensitively (.lower()): an accepted '
                   'spelling such as %r silently takes the other branch' % (
                       norm_text(c), k[0], k[1], fam[k], k[1].capitalize()))
-    for k, where in sorted(fam.items()):
-      n += 1
-      res.ok(rule, '%s|family:%s=%s' % (mname, k[0], k[1]), mod.name,
-             'validated case-insensitively in %s; no raw comparison in the '
-             'module' % where)
+  for k, where in sorted(fam.items()):
+    n += 1
+    res.ok(rule, 'family:%s=%s' % (k[0], k[1]), where,
+           'validated case-insensitively in %s; no raw comparison in %s' % (
+               where, ', '.join(modules)))
   return n
